@@ -367,6 +367,32 @@ func (h *histRun) apply(op *histOp) (err error) {
 			return e
 		}
 		return d.WriteAttribute(string(nameb), v)
+	case "rebalance": // explicit rebalancing calls: never change the logical content
+		if h.fw == nil {
+			return fmt.Errorf("harness: no open writer")
+		}
+		if op.Path == "" {
+			switch op.Kind {
+			case "disable":
+				h.fw.DisableRebalancing()
+				if h.fw.RebalancingEnabled() {
+					h.note = "RebalancingEnabled() is true after DisableRebalancing()"
+				}
+				return nil
+			case "enable":
+				h.fw.EnableRebalancing()
+				if !h.fw.RebalancingEnabled() {
+					h.note = "RebalancingEnabled() is false after EnableRebalancing()"
+				}
+				return nil
+			}
+			return h.fw.RebalanceAllBTrees()
+		}
+		d, e := h.handle(op)
+		if e != nil {
+			return e
+		}
+		return d.RebalanceAttributeBTree()
 	case "mkcompound", "mkdense", "mkgrouplinks":
 		if h.fw == nil {
 			return fmt.Errorf("harness: no open writer")
